@@ -285,7 +285,7 @@ Definition get_sql (dist : bool) : string :=
   "SELECT argMax(value, inserted_at) as _value FROM " ++ (if dist then "settings_dist" else "settings") ++
   " WHERE fingerprint = $1 " ++ nl ++ "GROUP BY fingerprint HAVING argMax(name, inserted_at) != ''".
 Definition put_sql : string :=
-  "INSERT INTO settings (fingerprint, type, name, value, inserted_at)" ++ nl ++ "VALUES ($1, $2, $3, $4, NOW())".
+  "INSERT INTO settings (fingerprint, type, name, value, inserted_at)" ++ nl ++ "VALUES ($1, $2, $3, $4, now64(9))".
 Definition on_cluster (cfg : config) : string :=
   if String.eqb (cluster cfg) "" then "" else " ON CLUSTER `" ++ cluster cfg ++ "` ".
 Definition tune_tail : string :=
